@@ -54,8 +54,11 @@ ASSUMPTIONS = [
 TRUSTED = ['kgen.py build() and the real kapture_to_dir writer for the input dataset', 'sqlite3 and numpy used to read the '
            'database and feature files independently of the converter']
 PARTIAL = ('the theorems cover the discrete plumbing and arithmetic core (camera table, id assignment, generated pair-id '
-           'arithmetic, match column swap, points/tracks, world pose of rig-mounted cameras); the SQLite / text / numpy-blob '
-           'plumbing, float printing and parsing and the csv loader are exercised by the full export -> import loops only')
+           'arithmetic, match column swap, points/tracks, world pose of rig-mounted cameras) and the TEXT layer of the '
+           'reconstruction files (tokens joined by single blanks and tokenised back, image names of several words, the '
+           'two-lines-per-image layout of images.txt and the importer\'s first pass over it: Model/C13Text.lean, tied byte for '
+           'byte to the files written); SQLite, numpy blobs, float printing and parsing and the csv loader are exercised by the '
+           'full export -> import loops only')
 
 INCLUDE_REPORTED = os.environ.get('C13_REPORTED', '1') == '1'
 TOL = Fraction(1, 10 ** 9)
@@ -443,6 +446,12 @@ def _run_real(case):
         res['db'] = read_db(db)
         res['lines'] = read_points_txt(os.path.join(rec, 'points3D.txt'))
         res['files'] = sorted(os.listdir(rec))
+        res['text'] = {}
+        for fn in ('cameras.txt', 'images.txt', 'points3D.txt'):
+            fp = os.path.join(rec, fn)
+            if os.path.isfile(fp):
+                with open(fp, encoding='utf-8', newline='') as fh:
+                    res['text'][fn] = fh.read()
         kout = os.path.join(base, 'out')
         ktype = (case['kp'] or case['matches'] or {'type': 'SIFT'})['type']
         dtype = (case['desc'] or {'type': 'SIFT'})['type']
@@ -461,7 +470,7 @@ def run_impl(case):
     r = run_real(case)
     if r['error']:
         return {'error': r['error'], 'stage': r['stage']}
-    return {'db': r['db'], 'lines': r['lines'], 'out': r['out'], 'pairs': r['pairs']}
+    return {'db': r['db'], 'lines': r['lines'], 'out': r['out'], 'pairs': r['pairs'], 'text': r.get('text')}
 
 
 # ------------------------------------------------------------------------------------------------------- model side
@@ -504,7 +513,85 @@ def to_model(case):
            'rigs': [[rid, [[m, [rat(h) for h in p['r'] + p['t']]] for m, p in members.items()]]
                     for rid, members in (case['rigs'] or {}).items()],
            'traj': [[ts, dev, [rat(h) for h in p['r'] + p['t']]] for ts, dev, p in case['trajectories'] or []]}
-    return [req, {'op': 'table'}] + [{'op': 'pair', 'a': str(a), 'b': str(b)} for a, b in case.get('pairs', [])]
+    reqs = [req, {'op': 'table'}] + [{'op': 'pair', 'a': str(a), 'b': str(b)} for a, b in case.get('pairs', [])]
+    return reqs + text_requests(case)
+
+
+def images_entries(text):
+    """ images.txt cut into (n, entries) by plain string operations: comment lines, then two lines per image """
+    lines = text.split('\n')
+    if lines and lines[-1] == '':
+        lines = lines[:-1]
+    n = 0
+    for l in lines:
+        if l.startswith('# NB IMAGES : '):
+            n = int(l[len('# NB IMAGES : '):])
+    data = [l for l in lines if not l.startswith('#')]
+    entries = []
+    for i in range(0, len(data) - 1, 2):
+        f = data[i].split(' ')
+        t = data[i + 1].split(' ') if data[i + 1] else []
+        entries.append([int(f[0]), f[1:8], int(f[8]), ' '.join(f[9:]), [t[k:k + 3] for k in range(0, len(t), 3)]])
+    return n, entries
+
+
+def data_lines(text):
+    lines = text.split('\n')
+    if lines and lines[-1] == '':
+        lines = lines[:-1]
+    return [l for l in lines if not l.startswith('#')]
+
+
+def text_requests(case):
+    """ the text layer (Model/C13Text.lean) against the files the exporter wrote: the model must render images.txt byte for byte
+    from its entries, find the same entries in it, and every line of cameras.txt / points3D.txt must be its tokens joined by
+    single blanks """
+    r = run_real(case)
+    t = r.get('text') or {}
+    reqs = []
+    if 'images.txt' in t:
+        n, entries = images_entries(t['images.txt'])
+        reqs.append({'op': 'images_txt', 'n': n, 'entries': entries})
+        reqs.append({'op': 'images_pass1', 'text': t['images.txt']})
+    for fn in ('cameras.txt', 'points3D.txt'):
+        if fn in t:
+            ls = data_lines(t[fn])
+            reqs.append({'op': 'join', 'lines': [l.split(' ') for l in ls]})
+            reqs.append({'op': 'tokens', 'lines': ls})
+    return reqs
+
+
+def compare_text(case, io, mo):
+    t = io.get('text') or {}
+    k = 0
+    if 'images.txt' in t:
+        n, entries = images_entries(t['images.txt'])
+        if mo[k].get('text') != t['images.txt']:
+            a, b = t['images.txt'], mo[k].get('text') or ''
+            i = next((j for j in range(min(len(a), len(b))) if a[j] != b[j]), min(len(a), len(b)))
+            return f'images.txt: bytes differ at {i}: file {a[max(0, i - 40):i + 40]!r} model {b[max(0, i - 40):i + 40]!r}'
+        want = [[e[0], e[1], e[2], e[3]] for e in entries]
+        if mo[k + 1].get('images') != want:
+            return f'images.txt first pass: file {want[:3]} model {(mo[k + 1].get("images") or [])[:3]}'
+        # ... and the importer found the same images: identifier -> name, pose tokens -> the floats it loaded
+        out = io.get('out')
+        if out is not None:
+            for iid, pose, cam, name in want:
+                got = out['images'].get(name)
+                if not isinstance(got, dict) or got['id'] != iid:
+                    return f'images.txt: image {name!r} (id {iid}) imported as {got}'
+                if got['pose'] is not None and got['pose'] != [H(float(v)) for v in pose]:
+                    return f'images.txt: pose of {name!r}: file tokens {pose} imported {got["pose"]}'
+        k += 2
+    for fn in ('cameras.txt', 'points3D.txt'):
+        if fn in t:
+            ls = data_lines(t[fn])
+            if mo[k].get('lines') != ls:
+                return f'{fn}: a line is not its tokens joined by single blanks: {[l for l, m in zip(ls, mo[k].get("lines") or []) if l != m][:2]}'
+            if mo[k + 1].get('tokens') != [l.split() for l in ls]:
+                return f'{fn}: tokenisation differs'
+            k += 2
+    return None
 
 
 def rot_exact(q):
@@ -543,7 +630,12 @@ def tscale(case):
 def compare(case, io, mo):
     if case['trajectories'] is None:
         return None               # reported finding, outside the model (the oracle speaks)
-    loop, table, pairs = mo[0], mo[1], mo[2:]
+    npairs = len(case.get('pairs', []))
+    loop, table, pairs = mo[0], mo[1], mo[2:2 + npairs]
+    if 'error' not in io:
+        d = compare_text(case, io, mo[2 + npairs:])
+        if d is not None:
+            return d
     if 'error' in io or 'error' in loop:
         return f'errors differ: impl={io.get("error")} at {io.get("stage")} model={loop.get("error")}'
     # generated arithmetic and the table, called directly
